@@ -413,6 +413,25 @@ func generate(f *rep.Flags, bounds map[string]any, emit func(*Case)) {
 			}
 		}
 	}
+	// a few large objects in one list and thousands of small ones in the other (the first oversized
+	// message scales one list's share to zero; what is left of it is later sent as "everything left",
+	// which can itself be too big for one message), both ways round
+	nLarge := []int{9, 10}
+	szLarge := []int{400 << 10, 450 << 10, 500 << 10}
+	nSmall := []int{1500, 4000}
+	if f.Thorough() {
+		nLarge = []int{9, 10, 11, 12, 16}
+		szLarge = []int{380 << 10, 400 << 10, 420 << 10, 450 << 10, 480 << 10, 500 << 10, 520 << 10}
+		nSmall = []int{1500, 4000, 4500}
+	}
+	for _, nl := range nLarge {
+		for _, sl := range szLarge {
+			for _, ns := range nSmall {
+				out(&Case{Family: "zero-share", Pods: rep1(nl, sl), Ctrs: rep1(ns, 10<<10), SpareCap: nl%2 == 0, Handler: "sync"})
+				out(&Case{Family: "zero-share", Pods: rep1(ns, 10<<10), Ctrs: rep1(nl, sl), SpareCap: nl%2 == 1, Handler: "sync"})
+			}
+		}
+	}
 	// large counts
 	counts := []int{0, 1, 2, 3, 7, 8, 9, 100, 1000, 3000}
 	osz := []int{100, 1 << 10, 5 << 10, 100 << 10}
